@@ -178,3 +178,20 @@ Fixpoint vm_scripted_run (scs : list script) (cs : list cursor) (st : list vacc 
       let '(st1, infos) := vm_vec_op st (VStep (map snd res)) in
       let '(rows, outs) := vm_scripted_run scs (map fst res) st1 rest in (rows, infos :: outs)
   end.
+
+(* ---- load_results over several monitor files (extension): every file has a header t_start and rows (t, row) with t relative to
+   ITS t_start; the reader adds the file's own t_start to its rows, concatenates, and sorts by the absolute time ---- *)
+Section LoadResults.
+Context {A : Type}.
+Definition mfile := (Z * list (Z * A))%type.          (* t_start, rows (relative t, content); times in microseconds *)
+
+Fixpoint insert_by_t (x : Z * A) (l : list (Z * A)) : list (Z * A) :=
+  match l with
+  | [] => [x]
+  | y :: r => if fst x <=? fst y then x :: l else y :: insert_by_t x r
+  end.
+Definition sort_by_t (l : list (Z * A)) : list (Z * A) := fold_right insert_by_t [] l.
+
+Definition absolute_rows (f : mfile) : list (Z * A) := map (fun tr => (fst f + fst tr, snd tr)) (snd f).
+Definition load_results_model (files : list mfile) : list A := map snd (sort_by_t (flat_map absolute_rows files)).
+End LoadResults.
